@@ -42,7 +42,7 @@ RULE = ("TLC explores every interleaving of periodic checkpoints, the savepoint 
 INV = ["TypeOK", "SavepointClosed", "RestoredEqualsSnap", "AtMostOnePending", "PublishedIsCut"]
 PROPS = ["FoldsIntoPending", "Undisturbed"]
 BASE = dict(NOps=2, MaxEv=2, MaxCkpt=2, MaxFlush=1, MaxCompact=1, RestoreNs="@{1,2}", Dev_ListLatest=False,
-            RetainKeepsNewer=False, MaxLen=100000)
+            RetainKeepsNewer=False, SpAfter=0, MaxLen=100000)
 
 # data layouts of the replay (harness config): where the operators' state lives when the savepoint is taken
 LAYOUTS = {
@@ -88,9 +88,15 @@ def run_replay(c, behs, consts, layout, label, **extra):
 
 
 def generated(c, consts, num, seed, layouts, label, depth=60):
-    gen = dict(consts, MaxFlush=0, MaxCompact=0, MaxLen=depth)  # the layout comes from the harness configuration
-    behs, r = vlib.gen_behaviours("Savepoint", gen, num, depth + 5, seed)
-    behs = [b for b in behs if replayable(b)]
+    """simulated behaviours; the savepoint request is spread over the job's life (SpAfter = 0, 1, 2 checkpoint ids handed
+    out before it) because a random walk otherwise requests it within the first few steps"""
+    behs = []
+    afters = [a for a in (0, 1, 2) if a < consts["MaxCkpt"]]
+    for a in afters:
+        gen = dict(consts, MaxFlush=0, MaxCompact=0, MaxLen=depth, SpAfter=a)  # the layout comes from the harness configuration
+        bs, r = vlib.gen_behaviours("Savepoint", gen, max(num // len(afters), 4), depth + 5, seed * 10 + a)
+        behs += [b for b in bs if replayable(b) and b not in behs]
+    gen = dict(consts, MaxFlush=0, MaxCompact=0, MaxLen=depth)
     if not behs:
         raise vlib.MachineryError("no replayable behaviours generated for " + label)
     # spread the behaviours over the layouts (every behaviour is run under exactly one)
@@ -189,7 +195,7 @@ def run(c):
                 tot[k] = tot.get(k, 0) + v
         c.extra["replay_counters"] = tot
         for k in ("layout_state_in_wal", "layout_state_in_L0", "layout_state_in_deeper_levels", "sp_folded", "sp_created",
-                  "doc_latest_is_not_savepoint_id", "restore_2_to_1", "restore_2_to_2", "restore_1_to_2", "restore_1_to_1"):
+                  "sp_folded_into_later_checkpoint", "doc_latest_is_not_savepoint_id", "restore_2_to_1", "restore_2_to_2", "restore_1_to_2", "restore_1_to_1"):
             if not tot.get(k) and not c.errors:
                 c.errors.append("replay never reached '%s' (vacuous coverage)" % k)
     finally:
